@@ -38,6 +38,9 @@ type Program struct {
 	fileSrc map[string][]byte
 }
 
+// curProgram: the program most recently loaded (helpers without a *Program parameter resolve read-only tables through it).
+var curProgram *Program
+
 func repoDir() string {
 	if d := os.Getenv("GQLVET_REPO"); d != "" {
 		return d
@@ -117,6 +120,7 @@ func Load(dir string, goarch string) (*Program, error) {
 	for _, fn := range p.funcs {
 		p.byName[p.FuncName(fn)] = fn
 	}
+	curProgram = p
 	return p, nil
 }
 
